@@ -2000,7 +2000,7 @@ def scalar_leaves(prog, f, operand, depth=4, out=None, sites=None):
             if not ty.startswith('&') and not ty.startswith('{'):
                 out.add(('arg', f.debug_name(o.data) or '_%s' % o.data))
         elif o.kind == 'upvar':
-            continue
+            out.add(('upvar', o.data))
         else:
             out.add((o.kind, str(o.data)[:30]))
     return out
